@@ -176,7 +176,12 @@ Definition low_within_surplus (s : est) : res (list cand) :=
   match map (@cvote A) (hopefuls A s) with
   | [] => Raise ValueError        (* dead: every call is guarded by "if C.hopeful():" *)
   | x :: l => let lv := vmin A x l in
-              Ok (filter (fun c => gev A (add A lv (surplus s)) (cvote c)) (hopefuls A s))
+              let lows := filter (fun c => gev A (add A lv (surplus s)) (cvote c)) (hopefuls A s) in
+              (* a total surplus rounded below zero puts nobody within it of the lowest tally: the lowest themselves *)
+              Ok (match lows with
+                  | [] => filter (fun c => eqv A (cvote c) lv) (hopefuls A s)
+                  | _ => lows
+                  end)
   end.
 
 Definition meek_defeat_low (tiefmt : string -> string -> string) (redistribute : bool) (s : est) : est :=
